@@ -1,0 +1,36 @@
+//go:build verif
+
+// Contracts for package server, read by /verif/gvc (comment-only file; it declares
+// nothing and is compiled only with -tags verif).
+package server
+
+// ---- C18 / C06: the bulk-add handler never sends on, or closes, a closed stream ----------
+// Whatever sequence of elements arrives (known graphs, unknown graphs, schema graphs,
+// invalid elements, transport errors), the per-graph element stream the handler writes
+// to is open: an element that cannot be routed is counted and skipped and leaves the
+// current stream as it is.
+//@ func (*GripServer).BulkAdd
+//@   property C18 C06
+//@   option load=gripql,gdbi
+//@   nopanic
+//@   requires nonnil: server != nil && stream != nil && server.graphMap != nil && server.dbs != nil && server.conf != nil
+//@   requires dbs: forall k:Str :: has(server.dbs, k) ==> server.dbs[k] != nil
+//@   loop 1 invariant open: elementStream != nil && !closed(elementStream)
+//@   loop 1 invariant counts: insertCount >= 0 && errorCount >= 0
+
+// The gRPC client stream and the graph database registry, as the handler uses them
+// (ASSUMED of google.golang.org/grpc and of the drivers).
+//@ iface github.com/bmeg/grip/gripql.Edit_BulkAddServer.Recv
+//@   params self
+//@   modifies H.gripql. alloc
+//@   ensures elem: result.1 == nil ==> result.0 != nil
+//@   ensures cmp: result.1 == nil || isAPtr(result.1)
+//@ iface github.com/bmeg/grip/gripql.Edit_BulkAddServer.SendAndClose
+//@   params self m
+//@   pure
+//@ iface github.com/bmeg/grip/gdbi.GraphDB.Graph
+//@   params self graph
+//@   pure
+//@   ensures ok: result.1 == nil ==> result.0 != nil
+//@ extern github.com/bmeg/grip/util.UUID
+//@   pure
